@@ -18,9 +18,13 @@ from harness.lib import coq_list
 from harness.props import C03 as M
 
 
-def gen_molecular(rng, n_mo):
-    """restricted molecular Hamiltonian (openfermion convention) from random dyadic real integrals with the
-    8-fold symmetry; returned as a term list"""
+def gen_molecular(rng, n_mo, eightfold=True):
+    """spin-restricted Hamiltonian  c + sum h_pq a+_ps a_qs + 1/2 sum g_pqrs a+_ps a+_qt a_rt a_ss  (openfermion
+    convention, alternating spin order) from random dyadic real tensors, returned as a term list.
+    eightfold=True : g from integrals with the 8-fold symmetry of real molecular orbitals;
+    eightfold=False: g has only what a Hermitian spin-restricted Hamiltonian needs — particle exchange
+                     g_pqrs = g_qpsr and hermiticity g_pqrs = g_srqp (4-fold); g[i,i,j,j], g[i,j,i,j], g[i,j,j,i]
+                     are then independent numbers, which tells the three HCB coefficient formulas apart."""
     import numpy as np
     from openfermion.chem.molecular_data import spinorb_from_spatial
     from openfermion import InteractionOperator, get_fermion_operator
@@ -28,14 +32,18 @@ def gen_molecular(rng, n_mo):
     for p in range(n_mo):
         for q in range(p, n_mo):
             h[p, q] = h[q, p] = rng.randint(-8, 8) / 8
-    chem = {}
+    vals = {}
     g = np.zeros((n_mo,) * 4)
     for p, q, r, s in itertools.product(range(n_mo), repeat=4):
-        key = min([(p, q, r, s), (q, p, r, s), (p, q, s, r), (q, p, s, r), (r, s, p, q), (s, r, p, q), (r, s, q, p), (s, r, q, p)])
-        if key not in chem:
-            chem[key] = rng.randint(-8, 8) / 8
-        g[p, q, r, s] = chem[key]
-    of2 = np.asarray(g.transpose(0, 2, 3, 1), order="C")          # as tangelo's integral solver does
+        if eightfold:       # chemist (pq|rs)
+            orbit = [(p, q, r, s), (q, p, r, s), (p, q, s, r), (q, p, s, r), (r, s, p, q), (s, r, p, q), (r, s, q, p), (s, r, q, p)]
+        else:               # openfermion order directly
+            orbit = [(p, q, r, s), (q, p, s, r), (s, r, q, p), (r, s, p, q)]
+        key = min(orbit)
+        if key not in vals:
+            vals[key] = rng.randint(-8, 8) / 8
+        g[p, q, r, s] = vals[key]
+    of2 = np.asarray(g.transpose(0, 2, 3, 1), order="C") if eightfold else g   # as tangelo's integral solver does
     o1, o2 = spinorb_from_spatial(h, of2)
     fo = get_fermion_operator(InteractionOperator(rng.randint(-4, 4) / 4, o1, 0.5 * o2))
     return [(t, c) for t, c in fo.terms.items() if c != 0]
@@ -136,22 +144,24 @@ NONDYADIC = [(((0, 1), (0, 0)), -1.2524635735648981), (((2, 1), (2, 0)), -0.4759
 def run_hcb_stream(ck):
     quick = ck.tier == "quick"
     rng = ck.rng
-    ck.stream("hcb", "restricted molecular Hamiltonians from random dyadic integrals (8-fold symmetry), 1-3 (quick) / "
-              "1-4 spatial orbitals: fermion_to_qubit_mapping(op, 'HCB') = model (exact) and spectrum on the "
-              "seniority-zero space, up_then_down False and True; non-trivial = >= 2 spatial orbitals")
+    ck.stream("hcb", "Hermitian spin-restricted number-/spin-conserving Hamiltonians from random dyadic tensors, half with "
+              "the 8-fold symmetry of molecular integrals, half with only hermiticity + particle exchange (4-fold: "
+              "g[i,i,j,j], g[i,j,i,j], g[i,j,j,i] independent), 1-3 (quick) / 1-4 spatial orbitals: "
+              "fermion_to_qubit_mapping(op, 'HCB') = model over the regenerated tensor-access table (exact) and "
+              "spectrum on the seniority-zero space, up_then_down False and True; non-trivial = >= 2 spatial orbitals")
     cases = []
-    for _ in range(25 if quick else 300):
+    for k in range(30 if quick else 300):
         n_mo = rng.choice([1, 2, 2, 3] if quick else [1, 2, 2, 3, 3, 4])
-        cases.append((gen_molecular(rng, n_mo), n_mo))
+        cases.append((gen_molecular(rng, n_mo, eightfold=(k % 2 == 0)), n_mo))
     exprs, impls = [], []
     for terms, n_mo in cases:
         r = hcb_oracle(ck, terms, n_mo, False)
         hcb_oracle(ck, terms, n_mo, True)
         if all(M.dyadic(c) is not None for _, c in terms):
-            exprs.append("run_hcb %s" % M.coq_fop(terms))
+            exprs.append("run_hcb hcb_tab_gen %s" % M.coq_fop(terms))
             impls.append((terms, n_mo, r))
     try:
-        model = ck.coq_eval("hcb", M.PREAMBLE, exprs, shard=20)
+        model = ck.coq_eval("hcb", M.PREAMBLE, exprs, shard=20, jobs=3)
     except Exception as e:
         ck.violation("C03/model-evaluation/hcb", "the Coq model could not be evaluated: %s" % str(e)[-600:],
                      {"kind": "model-eval", "stream": "hcb", "error": str(e)[-3000:]}, found_input=False)
@@ -177,7 +187,8 @@ def run_comb_stream(ck):
               "binary64 accuracy (1e-9)")
     for _ in range(12 if quick else 120):
         n_mo = rng.choice([2, 2, 3])
-        terms = gen_molecular(rng, n_mo) if rng.random() < 0.5 else M.gen_hamiltonian(rng, 2 * n_mo)
+        kind = rng.choice(["mol8", "mol4", "gen"])
+        terms = M.gen_hamiltonian(rng, 2 * n_mo) if kind == "gen" else gen_molecular(rng, n_mo, eightfold=(kind == "mol8"))
         terms = [(t, c) for t, c in M.make_fop(terms).terms.items()]
         secs = [(a, b) for a in range(n_mo + 1) for b in range(n_mo + 1)]
         for na, nb in (secs if not quick else rng.sample(secs, 4) + [(n_mo, n_mo)]):
